@@ -23,5 +23,16 @@ PROPS["C14"] = {
     "assumptions": ["uint is 64 bit, little endian (amd64)"],
 }
 
+PROPS["C18"] = {
+    "level": "proof",
+    "technique": "Lean 4 proof (bit round trip lemmas instantiated on the ASC and ADTS syntaxes; sync search by induction on the junk) + complete-grid correspondence",
+    "level_text": "Model lean/Mp4ff/Model/Aac.lean transcribes AudioSpecificConfig encode/decode and ADTS encode/decode (188-iteration sync search) on the proved bit writer/reader; theorems in Props/C18.lean cover the whole domain by proof, not enumeration; the tie is the complete finite grid run against the Go code on every check (all 13x8x8185 ADTS headers, all junk lengths 0..187, 77 frequencies x 16 channels x 3 object types), plus the AAC sample entry path through the mp4 package (oracle only).",
+    "level_note": "Trusted: Lean kernel, allowed axioms, hand transcription validated by correspondence. esds/descriptor framing is exercised through the real code only.",
+    "trusted": ["Model/Aac.lean hand transcription of aac/aac.go, aac/adts.go"],
+    "unmodelled": ["mp4/esds.go + mp4/descriptors.go framing (exercised by the direct oracle through SetAACDescriptor -> encode -> decode)"],
+    "partial": [],
+    "assumptions": [],
+}
+
 # reasons for properties that are not claimed (yet)
 NOT_CLAIMED = {}
